@@ -1,4 +1,4 @@
 """ENABLED: properties whose check the integrator has accepted into MANIFEST.json (each carries a REGISTRY dict in
 checks/cXX.py). NOT_APPLICABLE: reason text for properties not claimed."""
-ENABLED = {"C21", "C31"}
+ENABLED = {"C21", "C31", "C16", "C27", "C11"}
 NOT_APPLICABLE = {}
